@@ -59,16 +59,18 @@ type Violation struct {
 
 // Mon is a monitor: a pure observer with optional hooks.
 type Mon struct {
-	Name              string
-	Broadcast         func(n *Node, p Payload)
-	ProcessBlock      func(n *Node, b *vt.Block, err error)
-	ProcessPreBlock   func(n *Node, b *vt.PreBlock, err error)
-	BeforeCall        func(n *Node, c *Call)
-	AfterCall         func(n *Node, c *Call)
-	TimerReset        func(n *Node, h uint32, v byte, d time.Duration)
-	TimerExtend       func(n *Node, d time.Duration)
-	RequestTx         func(n *Node, hs []vt.H)
-	VerifyBlock       func(n *Node, ok bool)
+	Name            string
+	Broadcast       func(n *Node, p Payload)
+	ProcessBlock    func(n *Node, b *vt.Block, err error)
+	ProcessPreBlock func(n *Node, b *vt.PreBlock, err error)
+	BeforeCall      func(n *Node, c *Call)
+	AfterCall       func(n *Node, c *Call)
+	TimerReset      func(n *Node, h uint32, v byte, d time.Duration)
+	TimerExtend     func(n *Node, d time.Duration)
+	RequestTx       func(n *Node, hs []vt.H)
+	VerifyBlock     func(n *Node, ok bool)
+	// VerifyTxs sees the transaction list of every block / pre-block handed to the verification callbacks
+	VerifyTxs         func(n *Node, txs []dbft.Transaction[vt.H])
 	NewBlock          func(n *Node, b *vt.Block)
 	NewPreBlock       func(n *Node, b *vt.PreBlock)
 	Sign              func(n *Node, b *vt.Block)
